@@ -447,7 +447,7 @@ def hdrFields (streams : List Stream) (L : Layout) : List Nat :=
     0,
     4096,
     chainStart L.main 1,
-    (match L.main.chains[1]? with | some ch => ch.size | none => 0),
+    chainLen L.main 1,
     L.difIds[0]?.getD ENDOFCHAIN,
     L.ndif ]
 
@@ -465,14 +465,13 @@ def hdrOf (streams : List Stream) (L : Layout) : Header :=
     dirLen := if L.v4 then nsect L.ss (dirBytes streams L).length else 0
     dirStart := chainStart L.main 0
     fatLen := L.nfat
-    miniFatLen := match L.main.chains[1]? with | some ch => ch.size | none => 0
+    miniFatLen := chainLen L.main 1
     miniFatStart := chainStart L.main 1
     difatStart := L.difIds[0]?.getD ENDOFCHAIN }
 
 theorem header512_eq (streams : List Stream) (L : Layout) :
     header512 streams L = pre40 L.v4 ++ (le32s (hdrFields streams L) ++ le32s (hdrDifat L)) := by
   simp only [header512, pre40, hdrFields, hdrDifat, List.append_assoc]
-  rfl
 
 theorem pre40_length (v4 : Bool) : (pre40 v4).length = 40 := by cases v4 <;> rfl
 
@@ -1242,6 +1241,496 @@ theorem fromSlice_dirEntry (name : List Char) (typ : UInt8) (start size ss : Nat
       congr 2
       have := Nat.mod_add_div size 4294967296
       omega
+
+
+
+/-! ## parsing the directory -/
+
+
+def unusedDir : Dir := ⟨[], 0, 0⟩
+
+theorem fromSlice_unused (ss : Nat) : Dir.fromSlice unusedEntry ss = .ok unusedDir := by
+  have hlen : unusedEntry.length = 128 := rfl
+  have hname : decodeName64 (unusedEntry.take 64) = some (List.replicate 32 (Char.ofNat 0)) := by decide
+  have hnul : untilNul (List.replicate 32 (Char.ofNat 0)) = [] := by decide
+  have h116 : u32At unusedEntry 116 = 0 := by decide
+  have h120 : u32At unusedEntry 120 = 0 := by decide
+  have h64 : u64At unusedEntry 120 = 0 := by decide
+  unfold Dir.fromSlice
+  simp only [hlen, hname, hnul, h116, h120, h64]
+  have n1 : ¬ (128 < 120) := by omega
+  have n2 : ¬ (128 < 124) := by omega
+  simp only [n1, n2, Nat.lt_irrefl, if_false]
+  split <;> rfl
+
+theorem chunksAux_flatten (n : Nat) (hn : 0 < n) : ∀ (Ls : List Bytes) (fuel : Nat), Ls.length ≤ fuel →
+    (∀ x ∈ Ls, x.length = n) → chunksAux n fuel Ls.flatten = Ls := by
+  intro Ls
+  induction Ls with
+  | nil => intro fuel _ _; cases fuel <;> simp [chunksAux]; omega
+  | cons x xs ih =>
+    intro fuel hf hall
+    obtain ⟨f, rfl⟩ : ∃ f, fuel = f + 1 := ⟨fuel - 1, by simp at hf; omega⟩
+    have hx : x.length = n := hall x (by simp)
+    simp only [List.flatten_cons, chunksAux]
+    have : ¬ (x ++ xs.flatten).length < n := by simp [hx]
+    simp only [this, if_false]
+    rw [List.take_left' hx, List.drop_left' hx, ih f (by simp at hf; omega) (fun y hy => hall y (by simp [hy]))]
+
+theorem chunksExact_flatten (n : Nat) (hn : 0 < n) (Ls : List Bytes) (hall : ∀ x ∈ Ls, x.length = n) :
+    chunksExact n Ls.flatten = Ls := by
+  unfold chunksExact
+  apply chunksAux_flatten n hn Ls _ _ hall
+  rw [flatten_uniform_length n Ls hall]
+  exact Nat.le_mul_of_pos_left _ hn
+
+theorem parseDirs_map {α : Type} (ss : Nat) (enc : α → Bytes) (dec : α → Dir) : ∀ (xs : List α),
+    (∀ x ∈ xs, Dir.fromSlice (enc x) ss = .ok (dec x)) → parseDirs ss (xs.map enc) = .ok (xs.map dec) := by
+  intro xs
+  induction xs with
+  | nil => intro _; rfl
+  | cons e es ih =>
+    intro h
+    simp only [List.map_cons]
+    unfold parseDirs
+    rw [h e (by simp), ih (fun x hx => h x (by simp [hx]))]
+
+theorem parseDirs_append (ss : Nat) : ∀ (a b : List Bytes) (da db : List Dir), parseDirs ss a = .ok da →
+    parseDirs ss b = .ok db → parseDirs ss (a ++ b) = .ok (da ++ db) := by
+  intro a
+  induction a with
+  | nil => intro b da db ha hb; simp only [parseDirs] at ha; cases ha; simpa using hb
+  | cons e es ih =>
+    intro b da db ha hb
+    simp only [List.cons_append]
+    unfold parseDirs at ha ⊢
+    cases he : Dir.fromSlice e ss with
+    | ok d =>
+      rw [he] at ha
+      simp only at ha ⊢
+      cases hes : parseDirs ss es with
+      | ok ds =>
+        rw [hes] at ha
+        simp only at ha
+        cases ha
+        rw [ih b ds db hes hb]
+        rfl
+      | err _ => rw [hes] at ha; cases ha
+      | panic _ => rw [hes] at ha; cases ha
+      | outOfFuel => rw [hes] at ha; cases ha
+    | err _ => rw [he] at ha; cases ha
+    | panic _ => rw [he] at ha; cases ha
+    | outOfFuel => rw [he] at ha; cases ha
+
+theorem parseDirs_unused (ss k : Nat) : parseDirs ss (List.replicate k unusedEntry) = .ok (List.replicate k unusedDir) := by
+  induction k with
+  | zero => rfl
+  | succ k ih =>
+    rw [List.replicate_succ, List.replicate_succ]
+    unfold parseDirs
+    rw [fromSlice_unused, ih]
+
+
+
+/-! ## the directory of a layout -/
+
+
+def streamDir (streams : List Stream) (L : Layout) (s : Nat) : Dir :=
+  match streams[s]? with
+  | some st => ⟨st.name, if isMini st then chainStart L.mini s else chainStart L.main (3 + s), st.data.length⟩
+  | none => unusedDir
+
+def slotDir (streams : List Stream) (L : Layout) : Option Nat → Dir
+  | some s => streamDir streams L s
+  | none => unusedDir
+
+def rootDir (L : Layout) : Dir := ⟨rootName, chainStart L.main 2, 64 * L.mtotal⟩
+
+def dirPad (L : Layout) : Nat :=
+  nsect (L.ss / 128) (1 + L.dirOrder.length) * (L.ss / 128) - (1 + L.dirOrder.length)
+
+/-- the directory the reader must recover -/
+def parsedDirs (streams : List Stream) (L : Layout) : List Dir :=
+  rootDir L :: L.dirOrder.map (slotDir streams L) ++ List.replicate (dirPad L) unusedDir
+
+theorem chainStart_lt (sp : Space) (c n : Nat) (h : chainOK sp c n = true) (hres : sp.owner.size ≤ RESERVED) :
+    chainStart sp c < 4294967296 := by
+  rw [chainStart_eq]
+  cases hx : (sp.ids c)[0]? with
+  | none => simp [ENDOFCHAIN]
+  | some x =>
+    have := Space.ids_lt sp c n h x (List.mem_of_getElem? hx)
+    simp only [RESERVED] at hres
+    simp; omega
+
+theorem le_nsect_mul (ss len : Nat) (hss : 0 < ss) : len ≤ nsect ss len * ss := by
+  unfold nsect
+  have := Nat.div_add_mod (len + ss - 1) ss
+  have := Nat.mod_lt (len + ss - 1) hss
+  rw [Nat.mul_comm]
+  omega
+
+theorem mainData_stream (streams : List Stream) (L : Layout) (s : Nat) (st : Stream) (h : streams[s]? = some st) :
+    (mainData streams L)[3 + s]? = some (if isMini st then [] else st.data) := by
+  unfold mainData
+  have : 3 + s = s + 1 + 1 + 1 := by omega
+  rw [this]
+  simp only [List.getElem?_cons_succ, List.getElem?_map, h, Option.map_some]
+
+theorem ss_pos (L : Layout) : 0 < L.ss := by rcases ss_cases L with ⟨h, _⟩ | ⟨h, _⟩ <;> omega
+
+theorem stream_size_lt (streams : List Stream) (L : Layout) (hv : ValidP streams L) (s : Nat) (st : Stream)
+    (h : streams[s]? = some st) : st.data.length < 18446744073709551616 := by
+  by_cases hm : isMini st = true
+  · simp only [isMini, decide_eq_true_eq] at hm; omega
+  · have hs : s < streams.length := by
+      by_cases hlt : s < streams.length
+      · exact hlt
+      · rw [List.getElem?_eq_none (by omega)] at h; cases h
+    have hc := hv.chains (3 + s) (by omega)
+    have hd : (mainData streams L).getD (3 + s) [] = st.data := by
+      rw [List.getD_eq_getElem?_getD, mainData_stream streams L s st h]; simp [hm]
+    rw [hd] at hc
+    have h1 := Space.ids_length_le L.main _ _ hc
+    have h2 := (Space.ids_spec L.main _ _ hc).1
+    have h3 := le_nsect_mul L.ss st.data.length (ss_pos L)
+    have h4 := hv.total_le
+    simp only [Layout.total, RESERVED] at h4
+    have h5 : nsect L.ss st.data.length * L.ss ≤ 4294967290 * 4096 := by
+      apply Nat.mul_le_mul
+      · omega
+      · rcases ss_cases L with ⟨h, _⟩ | ⟨h, _⟩ <;> omega
+    omega
+
+theorem nameOK_enc (name : List Char) (h : nameOK name = true) : nameEncOK name = true ∧ name ≠ rootName := by
+  unfold nameOK at h
+  simp only [Bool.and_eq_true, bne_iff_ne, ne_eq] at h
+  exact h
+
+theorem fromSlice_streamEntry (streams : List Stream) (L : Layout) (hv : ValidP streams L) (s : Nat)
+    (hs : s < streams.length) :
+    Dir.fromSlice (streamEntry streams L s) L.ss = .ok (streamDir streams L s) := by
+  obtain ⟨st, hst⟩ : ∃ st, streams[s]? = some st := ⟨streams[s], by simp [hs]⟩
+  unfold streamEntry streamDir
+  simp only [hst]
+  have hmem : st ∈ streams := List.mem_of_getElem? hst
+  obtain ⟨hn, hsz⟩ := hv.names st hmem
+  apply fromSlice_dirEntry _ _ _ _ _ (nameOK_enc _ hn).1
+  · split
+    · exact chainStart_lt L.mini s _ (hv.minis s hs) (by have := hv.mini_small; simp only [Layout.mtotal, RESERVED] at *; omega)
+    · exact chainStart_lt L.main (3 + s) _ (hv.chains (3 + s) (by omega)) hv.total_le
+  · rcases ss_cases L with ⟨h1, _⟩ | ⟨h1, _⟩
+    · left
+      refine ⟨h1, ?_⟩
+      rcases hsz with h | h
+      · simp only [Layout.ss, h, if_true] at h1; omega
+      · exact h
+    · right
+      exact ⟨by omega, stream_size_lt streams L hv s st hst⟩
+
+theorem fromSlice_root (streams : List Stream) (L : Layout) (hv : ValidP streams L) :
+    Dir.fromSlice (dirEntry rootName 5 (chainStart L.main 2) (64 * L.mtotal)) L.ss = .ok (rootDir L) := by
+  apply fromSlice_dirEntry _ _ _ _ _ (by decide)
+  · exact chainStart_lt L.main 2 _ (hv.chains 2 (by omega)) hv.total_le
+  · have := hv.mini_small
+    rcases ss_cases L with ⟨h1, _⟩ | ⟨h1, _⟩
+    · left; exact ⟨h1, this⟩
+    · right; exact ⟨by omega, by omega⟩
+
+
+theorem dirEntry_length (name : List Char) (typ : UInt8) (start size : Nat) (h : (utf16Units name).length ≤ 31) :
+    (dirEntry name typ start size).length = 128 := by
+  rw [dirEntry_eq]; simp only [List.length_append, entryHead_length name typ h, le32_length, le64]
+
+theorem streamEntry_length (streams : List Stream) (L : Layout) (hv : ValidP streams L) (s : Nat) :
+    (streamEntry streams L s).length = 128 := by
+  unfold streamEntry
+  cases hst : streams[s]? with
+  | none => rfl
+  | some st =>
+    simp only
+    have hmem : st ∈ streams := List.mem_of_getElem? hst
+    exact dirEntry_length _ _ _ _ (nameEncOK_spec _ (nameOK_enc _ (hv.names st hmem).1).1).2.1
+
+theorem dirEntries_len (streams : List Stream) (L : Layout) (hv : ValidP streams L) :
+    ∀ x ∈ dirEntries streams L, x.length = 128 := by
+  intro x hx
+  unfold dirEntries at hx
+  simp only [List.mem_append, List.mem_cons, List.mem_map, List.mem_replicate] at hx
+  rcases hx with (rfl | ⟨o, _, rfl⟩) | ⟨_, rfl⟩
+  · exact dirEntry_length _ _ _ _ (by decide)
+  · cases o with
+    | none => rfl
+    | some s => exact streamEntry_length streams L hv s
+  · rfl
+
+theorem parse_dirEntries (streams : List Stream) (L : Layout) (hv : ValidP streams L) :
+    parseDirs L.ss (dirEntries streams L) = .ok (parsedDirs streams L) := by
+  unfold dirEntries parsedDirs
+  simp only [List.length_cons, List.length_map]
+  have hpad : nsect (L.ss / 128) (L.dirOrder.length + 1) * (L.ss / 128) - (L.dirOrder.length + 1) = dirPad L := by
+    unfold dirPad; rw [Nat.add_comm]
+  rw [hpad]
+  apply parseDirs_append _ _ _ _ _ ?_ (parseDirs_unused _ _)
+  unfold parseDirs
+  rw [fromSlice_root streams L hv]
+  have := parseDirs_map L.ss (slotEntry streams L) (slotDir streams L) L.dirOrder (by
+    intro o ho
+    cases o with
+    | none => exact fromSlice_unused _
+    | some s => exact fromSlice_streamEntry streams L hv s (hv.dirRange _ ho s rfl))
+  rw [this]
+
+theorem parse_dirBytes (streams : List Stream) (L : Layout) (hv : ValidP streams L) :
+    parseDirs L.ss (chunksExact 128 (dirBytes streams L)) = .ok (parsedDirs streams L) := by
+  unfold dirBytes
+  rw [chunksExact_flatten 128 (by omega) _ (dirEntries_len streams L hv)]
+  exact parse_dirEntries streams L hv
+
+
+
+/-! ## bounds and lengths -/
+
+
+theorem nsect_mul (ss q : Nat) (hss : 0 < ss) : nsect ss (q * ss) = q := by
+  unfold nsect
+  have : q * ss + ss - 1 = (ss - 1) + q * ss := by omega
+  rw [this, Nat.add_mul_div_right _ _ hss, Nat.div_eq_of_lt (by omega)]; omega
+
+theorem slot_fat_inj : ∀ a b, Slot.fat a = Slot.fat b → a = b := by intro a b h; injection h
+theorem slot_difat_inj : ∀ a b, Slot.difat a = Slot.difat b → a = b := by intro a b h; injection h
+
+theorem chain_size_le (sp : Space) (c n : Nat) (h : chainOK sp c n = true) : n ≤ sp.owner.size := by
+  have := Space.ids_length_le sp c n h
+  rw [(Space.ids_spec sp c n h).1] at this; exact this
+
+theorem chain_size_eq (sp : Space) (c n : Nat) (h : chainOK sp c n = true) :
+    chainLen sp c = n := by
+  obtain ⟨ch, hch, hn, _⟩ := chainOK_spec sp c n h
+  simp [chainLen, hch, hn]
+
+theorem hdrFields_lt (streams : List Stream) (L : Layout) (hv : ValidP streams L) :
+    ∀ v ∈ hdrFields streams L, v < 4294967296 := by
+  have ht := hv.total_le
+  simp only [Layout.total, RESERVED] at ht
+  have h0 := chain_size_le L.main 0 _ (hv.chains 0 (by omega))
+  have h1 := chain_size_le L.main 1 _ (hv.chains 1 (by omega))
+  have e1 := chain_size_eq L.main 1 _ (hv.chains 1 (by omega))
+  have hf := idsOK_size_le _ _ _ slot_fat_inj hv.fatIds
+  have hd := idsOK_size_le _ _ _ slot_difat_inj hv.difIds
+  have c0 := chainStart_lt L.main 0 _ (hv.chains 0 (by omega)) hv.total_le
+  have c1 := chainStart_lt L.main 1 _ (hv.chains 1 (by omega)) hv.total_le
+  have d0 := difNext_lt streams L hv 0
+  have hd0 : (mainData streams L).getD 0 [] = dirBytes streams L := rfl
+  rw [hd0] at h0
+  intro v hvm
+  simp only [hdrFields, List.mem_cons, List.not_mem_nil, or_false] at hvm
+  rcases hvm with rfl | rfl | rfl | rfl | rfl | rfl | rfl | rfl | rfl
+  · split <;> omega
+  · simp only [Layout.nfat]; omega
+  · exact c0
+  · omega
+  · omega
+  · exact c1
+  · rw [e1]; omega
+  · exact d0
+  · simp only [Layout.ndif]; omega
+
+theorem hdrDifat_lt (streams : List Stream) (L : Layout) (hv : ValidP streams L) :
+    ∀ v ∈ hdrDifat L, v < 4294967296 := by
+  intro v hvm
+  simp only [hdrDifat, List.mem_map] at hvm
+  obtain ⟨t, _, rfl⟩ := hvm
+  exact fatIdAt_lt streams L hv t
+
+theorem mainBody_length (streams : List Stream) (L : Layout) : (mainBody streams L).length = L.ss * L.total :=
+  Space.body_length L.main L.ss L.fill _ _ _ (mainPieces_uniform streams L) (fatSector_length L) (difSector_length L)
+
+theorem layoutCfb_length (streams : List Stream) (L : Layout) : (layoutCfb streams L).length = L.ss * (1 + L.total) := by
+  unfold layoutCfb
+  simp only [List.length_append, header512_length, List.length_replicate, mainBody_length]
+  rcases ss_cases L with ⟨h, _⟩ | ⟨h, _⟩ <;> rw [h] <;> omega
+
+theorem dirBytes_length (streams : List Stream) (L : Layout) (hv : ValidP streams L) :
+    (dirBytes streams L).length = nsect (L.ss / 128) (1 + L.dirOrder.length) * L.ss := by
+  unfold dirBytes
+  rw [flatten_uniform_length 128 _ (dirEntries_len streams L hv)]
+  unfold dirEntries
+  simp only [List.length_append, List.length_cons, List.length_map, List.length_replicate]
+  have hle := le_nsect_mul (L.ss / 128) (L.dirOrder.length + 1) (by rcases ss_cases L with ⟨h, _⟩ | ⟨h, _⟩ <;> rw [h] <;> omega)
+  rw [Nat.add_comm 1]
+  rcases ss_cases L with ⟨h, _⟩ | ⟨h, _⟩
+  · rw [h] at hle ⊢
+    simp only [Nat.reduceDiv] at hle ⊢
+    generalize nsect 4 (L.dirOrder.length + 1) = q at *
+    omega
+  · rw [h] at hle ⊢
+    simp only [Nat.reduceDiv] at hle ⊢
+    generalize nsect 32 (L.dirOrder.length + 1) = q at *
+    omega
+
+
+
+/-! ## mini stream -/
+
+
+theorem miniPieces_uniform (streams : List Stream) (L : Layout) : UniformP 64 (miniPieces streams L) := by
+  intro c p hp i x hx
+  unfold miniPieces at hp
+  simp only [List.getElem?_toArray, List.getElem?_map, Option.map_eq_some_iff] at hp
+  obtain ⟨st, _, rfl⟩ := hp
+  split at hx
+  · exact pieces_uniform _ _ _ i x hx
+  · simp at hx
+
+theorem miniPieces_get (streams : List Stream) (L : Layout) (s : Nat) (st : Stream) (h : streams[s]? = some st)
+    (hm : isMini st = true) : (miniPieces streams L)[s]? = some (pieces 64 L.fill st.data) := by
+  unfold miniPieces
+  simp [h, hm]
+
+theorem miniBody_length (streams : List Stream) (L : Layout) : (miniBody streams L).length = 64 * L.mtotal :=
+  Space.body_length L.mini 64 L.fill _ _ _ (miniPieces_uniform streams L) (by simp) (by simp)
+
+theorem mtotal_le (streams : List Stream) (L : Layout) (hv : ValidP streams L) : L.mini.owner.size ≤ RESERVED := by
+  have := hv.mini_small; simp only [Layout.mtotal, RESERVED] at *; omega
+
+theorem mini_entry_lt (streams : List Stream) (L : Layout) (hv : ValidP streams L) (k : Nat) :
+    L.mini.entry k < 4294967296 :=
+  Space.entry_lt L.mini (fun c hc => ⟨_, hv.minis c (by rw [hv.nmini] at hc; exact hc)⟩) (mtotal_le streams L hv) k
+
+theorem miniFatTable_eq (L : Layout) : miniFatTable L = L.mini.fats (nsect L.perFat L.mtotal * L.perFat) := rfl
+
+theorem miniFat_bytes_length (L : Layout) :
+    (le32s (miniFatTable L)).length = nsect L.perFat L.mtotal * L.ss := by
+  rw [le32s_length, miniFatTable_eq, Space.fats_length]
+  rcases ss_cases L with ⟨h1, h2⟩ | ⟨h1, h2⟩ <;> rw [h1, h2] <;> omega
+
+theorem miniFat_u32s (streams : List Stream) (L : Layout) (hv : ValidP streams L) :
+    u32s (le32s (miniFatTable L)) = miniFatTable L := by
+  apply u32s_le32s
+  intro v hvm
+  simp only [miniFatTable, List.mem_map] at hvm
+  obtain ⟨t, _, rfl⟩ := hvm
+  exact mini_entry_lt streams L hv t
+
+
+
+/-! ## `Cfb::new` on a generated container -/
+
+
+theorem dir_chain_result (D : Bytes) (len0 : Nat) (h : len0 = 0 ∨ len0 = D.length) :
+    (if len0 > 0 then D.take len0 else D) = D := by
+  rcases h with h | h
+  · simp [h]
+  · split
+    · rw [h]; exact List.take_length
+    · rfl
+
+theorem new_layout (streams : List Stream) (L : Layout) (hv : ValidP streams L) :
+    ∃ s rd, Cfb.new (layoutCfb streams L) (layoutCfb streams L).length =
+        .ok (⟨parsedDirs streams L, s, L.main.fats (L.nfat * L.perFat), ⟨miniBody streams L, 64⟩, miniFatTable L⟩, rd) ∧
+      s.data ++ rd = mainBody streams L ∧ s.size = L.ss := by
+  have hss := ss_pos L
+  have h1 := fromReader_layout streams L (hdrFields_lt streams L hv) (hdrDifat_lt streams L hv)
+  have hdN : L.ndif ≤ L.total := idsOK_size_le _ _ _ slot_difat_inj hv.difIds
+  have hrem : L.ndif ≤ (layoutCfb streams L).length / L.ss + 1 := by
+    rw [layoutCfb_length, Nat.mul_div_cancel_left _ hss]; omega
+  obtain ⟨s1, rd1, e2, i2, z2⟩ := difatLoop_layout streams L hv L.ndif 0 (by omega) _ ⟨[], L.ss⟩ (mainBody streams L)
+    hrem (by simp) rfl
+  have hd0 : difatUpTo L 0 = hdrDifat L := by simp [difatUpTo, hdrDifat]
+  rw [hd0] at e2
+  obtain ⟨s2, rd2, e3, i3, z3⟩ := loadFats_layout streams L hv (109 + L.ndif * (L.perFat - 1)) 0 s1 rd1 i2 z2
+  have hdN' : difatUpTo L L.ndif = (List.range' 0 (109 + L.ndif * (L.perFat - 1))).map (fatIdAt L) := by
+    simp [difatUpTo, List.range_eq_range']
+  rw [← hdN', fat_rows_all L _ hv.nfat_le] at e3
+  have hdl := dirBytes_length streams L hv
+  have hc0 := hv.chains 0 (by omega)
+  have hd0' : (mainData streams L).getD 0 [] = dirBytes streams L := rfl
+  rw [hd0'] at hc0
+  obtain ⟨s3, rd3, e4, i4, z4⟩ := Space.getChain_gen L.main L.ss hss L.fill (mainPieces streams L) (fatSector L)
+    (difSector L) (mainPieces_uniform streams L) (fatSector_length L) (difSector_length L) 0 (dirBytes streams L)
+    (mainPieces_get streams L 0 _ rfl) hc0 (L.nfat * L.perFat) hv.total_fat hv.total_le s2 rd2 [] z3
+    (by rw [List.append_nil]; exact i3) ((hdrOf streams L).dirLen * L.ss)
+  rw [padChunks_flatten_exact L.ss L.fill hss _ _ (Nat.le_refl _) (by rw [hdl]; exact Nat.mul_mod_left _ _)] at e4
+  rw [dir_chain_result] at e4
+  · unfold Cfb.new
+    rw [h1]
+    simp only [Res.bind_ok, hdrOf] at e4 ⊢
+    rw [e2]
+    simp only [Res.bind_ok]
+    rw [e3]
+    simp only [Res.bind_ok]
+    rw [e4]
+    simp only [Res.bind_ok]
+    rw [parse_dirBytes streams L hv]
+    simp only [Res.bind_ok, parsedDirs, List.cons_append]
+    have hc1 := hv.chains 1 (by omega)
+    have hc2 := hv.chains 2 (by omega)
+    have hd1 : (mainData streams L).getD 1 [] = le32s (miniFatTable L) := rfl
+    have hd2 : (mainData streams L).getD 2 [] = miniBody streams L := rfl
+    rw [hd1] at hc1
+    rw [hd2] at hc2
+    have hml := miniFat_bytes_length L
+    have hcl : chainLen L.main 1 = nsect L.perFat L.mtotal := by
+      rw [chain_size_eq L.main 1 _ hc1, hml, nsect_mul _ _ hss]
+    by_cases hmf : chainLen L.main 1 > 0
+    · simp only [hmf, if_true, rootDir]
+      rw [List.append_nil] at i4
+      obtain ⟨s4, rd4, e5, i5, z5⟩ := Space.getChain_gen L.main L.ss hss L.fill (mainPieces streams L) (fatSector L)
+        (difSector L) (mainPieces_uniform streams L) (fatSector_length L) (difSector_length L) 2 (miniBody streams L)
+        (mainPieces_get streams L 2 _ rfl) hc2 (L.nfat * L.perFat) hv.total_fat hv.total_le s3 rd3 [] z4
+        (by rw [List.append_nil]; exact i4) (64 * L.mtotal)
+      rw [List.append_nil] at i5
+      have hmini : (if 64 * L.mtotal > 0 then
+          (padChunks L.ss L.fill (miniBody streams L).length (miniBody streams L)).flatten.take (64 * L.mtotal)
+          else (padChunks L.ss L.fill (miniBody streams L).length (miniBody streams L)).flatten) = miniBody streams L := by
+        have hl := miniBody_length streams L
+        split
+        · rw [← hl]; exact padChunks_flatten_take L.ss L.fill hss _ _ (Nat.le_refl _)
+        · have : miniBody streams L = [] := List.eq_nil_of_length_eq_zero (by omega)
+          rw [this]; simp [padChunks]
+      rw [hmini] at e5
+      obtain ⟨s5, rd5, e6, i6, z6⟩ := Space.getChain_gen L.main L.ss hss L.fill (mainPieces streams L) (fatSector L)
+        (difSector L) (mainPieces_uniform streams L) (fatSector_length L) (difSector_length L) 1 (le32s (miniFatTable L))
+        (mainPieces_get streams L 1 _ rfl) hc1 (L.nfat * L.perFat) hv.total_fat hv.total_le s4 rd4 [] z5
+        (by rw [List.append_nil]; exact i5) (chainLen L.main 1 * L.ss)
+      rw [List.append_nil] at i6
+      rw [padChunks_flatten_exact L.ss L.fill hss _ _ (Nat.le_refl _) (by rw [hml]; exact Nat.mul_mod_left _ _)] at e6
+      rw [dir_chain_result _ _ (Or.inr (by rw [hcl, hml]))] at e6
+      refine ⟨s5, rd5, ?_, i6, z6⟩
+      rw [e5]
+      simp only [Res.bind_ok]
+      rw [e6]
+      simp only [Res.bind_ok]
+      have hmod : (le32s (miniFatTable L)).length % 4 = 0 := by rw [le32s_length]; omega
+      simp only [hmod, ne_eq, not_true_eq_false, if_false, miniFat_u32s streams L hv]
+    · simp only [hmf, if_false]
+      rw [List.append_nil] at i4
+      refine ⟨s3, rd3, ?_, i4, z4⟩
+      have hm0 : L.mtotal = 0 := by
+        have h0 : nsect L.perFat L.mtotal = 0 := by omega
+        have := le_nsect_mul L.perFat L.mtotal (by rcases ss_cases L with ⟨_, h⟩ | ⟨_, h⟩ <;> omega)
+        rw [h0] at this; omega
+      have hb : miniBody streams L = [] := List.eq_nil_of_length_eq_zero (by rw [miniBody_length, hm0])
+      have hf : miniFatTable L = [] := by
+        rw [miniFatTable_eq, hm0]
+        have : nsect L.perFat 0 = 0 := nsect_zero _ (by rcases ss_cases L with ⟨_, h⟩ | ⟨_, h⟩ <;> omega)
+        rw [this, Nat.zero_mul]; rfl
+      rw [hb, hf]
+  · rcases ss_cases L with ⟨h, _⟩ | ⟨h, _⟩
+    · left
+      simp only [hdrOf, Layout.ss] at h ⊢
+      split
+      · rename_i hv4; simp [hv4] at h
+      · simp
+    · right
+      simp only [hdrOf, Layout.ss] at h ⊢
+      split
+      · rename_i hv4
+        have h2 := hdl
+        simp only [Layout.ss, hv4, if_true] at h2 ⊢
+        rw [h2, nsect_mul _ _ (by omega)]
+      · rename_i hv4; simp [hv4] at h
 
 
 end Cfb
